@@ -27,6 +27,7 @@ type Universe struct {
 	globals    map[*ssa.Global]int
 	funcIDs    map[*ssa.Function]int
 	extraDecls []string
+	mutual     map[string]bool   // struct sorts declared in the same datatype block as Val
 	oracleFuns map[string]string // name -> signature, declared in the prelude
 	oracleOrd  []string
 }
@@ -106,10 +107,8 @@ func (u *Universe) sortOf(t types.Type) string {
 		if isErrorType(t) {
 			return "Err"
 		}
-		if x.NumMethods() == 0 {
-			return "Val"
-		}
-		return "Int" // other interfaces (VariableFetcher, context.Context): opaque object ids
+		// every non-error interface is a Val: the dynamic type and payload stay visible
+		return "Val"
 	case *types.Pointer, *types.Map, *types.Chan, *types.Signature:
 		return "Int"
 	case *types.Slice:
@@ -151,6 +150,26 @@ func (u *Universe) structContainsVal(st *types.Struct, depth int) bool {
 		}
 	}
 	return false
+}
+
+// flatValStruct: a struct with interface fields whose every field is of a plain representable sort
+// (no nested struct with interfaces, no arrays): it can be declared together with Val.
+func (u *Universe) flatValStruct(st *types.Struct) bool {
+	for i := 0; i < st.NumFields(); i++ {
+		ft := st.Field(i).Type()
+		switch x := ft.Underlying().(type) {
+		case *types.Struct:
+			if u.structContainsVal(x, 0) {
+				return false
+			}
+		case *types.Array, *types.Tuple:
+			return false
+		}
+		if u.sortOf(ft) == "" {
+			return false
+		}
+	}
+	return true
 }
 
 func (u *Universe) structSort(t types.Type) string {
@@ -196,7 +215,16 @@ func (u *Universe) valCtorFor(t types.Type) *valCtor {
 	switch x := t.Underlying().(type) {
 	case *types.Struct:
 		if u.structContainsVal(x, 0) {
-			ps = ""
+			if u.flatValStruct(x) {
+				// declared together with Val (mutually recursive datatypes): fields stay visible
+				ps = u.structSort(t)
+				if u.mutual == nil {
+					u.mutual = map[string]bool{}
+				}
+				u.mutual[ps] = true
+			} else {
+				ps = ""
+			}
 		}
 	case *types.Interface:
 		ps = ""
@@ -414,14 +442,34 @@ func (u *Universe) Prelude() string {
 	for _, k := range before {
 		emitDeps(k)
 	}
-	sb.WriteString("(declare-datatypes ((Val 0)) (((VNil)")
+	var mut []string
+	for _, k := range after {
+		if u.mutual[k] {
+			mut = append(mut, k)
+		}
+	}
+	sb.WriteString("(declare-datatypes ((Val 0)")
+	for _, k := range mut {
+		sb.WriteString(" (" + k + " 0)")
+		emitted[k] = true
+	}
+	sb.WriteString(") (((VNil)")
 	keys := append([]string{}, u.ctorOrder...)
 	sort.Strings(keys)
 	for _, k := range keys {
 		c := u.valCtors[k]
 		sb.WriteString(fmt.Sprintf(" (V_%s (p_%s %s))", c.key, c.key, c.payload))
 	}
-	sb.WriteString(" (VOther (o_tag Int) (o_id Int)))))\n")
+	sb.WriteString(" (VOther (o_tag Int) (o_id Int)))")
+	for _, k := range mut {
+		d := u.structs[k]
+		sb.WriteString(fmt.Sprintf(" ((mk_%s", k))
+		for i, f := range d.fields {
+			sb.WriteString(fmt.Sprintf(" (%s %s)", d.fnames[i], f))
+		}
+		sb.WriteString("))")
+	}
+	sb.WriteString("))\n")
 	for _, k := range after {
 		emitDeps(k)
 	}
@@ -494,6 +542,9 @@ func (u *Universe) Prelude() string {
 		}
 	}
 	sb.WriteString("(define-fun uncmp ((v Val)) Bool (not (comparableVals v v)))\n")
+	if _, ok := u.structs["S_Time"]; ok {
+		sb.WriteString("(declare-fun timeUnix (S_Time) Int)\n")
+	}
 	for _, s := range u.strOrder {
 		sb.WriteString(fmt.Sprintf("(assert (= (strlen %d) %d)) ; %q\n", u.strIDs[s], len(s), trunc(s, 40)))
 	}
